@@ -231,6 +231,10 @@ func genOpScenario(r *rand.Rand, op string, small bool) *Scenario {
 			sc.LocalVal = randVal(r)
 		}
 		sc.Quorum = []int{-1, 0, 1, 2, 3}[r.Intn(5)]
+	case "getpubkey":
+		for i := range sc.Scripts {
+			sc.Scripts[i].Val = pick(r, "", "", "pk:right", "pk:other", "pk:other", "pk:garbage")
+		}
 	case "findprov":
 		for i := range sc.Scripts {
 			if r.Intn(2) == 0 {
@@ -388,7 +392,7 @@ func writeCurrent(e Env, d replayDesc) {
 
 func TestOpsAll(t *testing.T) { runOpsDriver(t, "ops-all", allOps, 42, 40, 210) }
 func TestOpsValue(t *testing.T) {
-	runOpsDriver(t, "ops-value", []string{"getvalue", "searchvalue"}, 40, 50, 200)
+	runOpsDriver(t, "ops-value", []string{"getvalue", "searchvalue", "getpubkey"}, 45, 50, 240)
 }
 func TestOpsProviders(t *testing.T) { runOpsDriver(t, "ops-findprov", []string{"findprov"}, 40, 50, 200) }
 func TestOpsPut(t *testing.T)       { runOpsDriver(t, "ops-put", []string{"putvalue", "provide"}, 40, 50, 200) }
